@@ -12,7 +12,9 @@ META = {
             "tsdb.DB: appender goroutines are parked by the verifhook gate after each per-sample critical section of Commit, queriers are "
             "opened exactly where TLC placed them, and the samples each querier returns are compared with the spec's predictions.",
     "note": "Bounds: quick = 2 appenders x 3 samples over 2 series (chunk cut at 2 samples) x 2 readers with rollback, exhaustively, one replayed "
-            "behaviour per distinct state with an open reader; 3 appenders x 1 series x 2 readers (watermark interplay) likewise; 4 appenders x 3 "
+            "behaviour per distinct state with an open reader; 3 appenders x 1 series x 2 readers (watermark interplay) likewise; 9 strictly "
+            "serial single-sample transactions on one series with 2 readers that stay open (physical txRing: capacity 4, growth while "
+            "wrapped with the first slot at 0..3) likewise; 4 appenders x 3 "
             "series x 3 readers by seeded simulation with views checked after every step. Thorough replays every transition of the first model, adds a "
             "6-samples-in-one-series model (ring growth), two 3-appender models check-only (0.6M and 2.7M states) and 1600 walks. Float samples only, OOO disabled, "
             "one head chunk range. Steps inside one Select (chunk list snapshot vs iterator creation) are not interleaved with commits. "
@@ -28,7 +30,7 @@ def run(ctx):
     import vlib
     q = ctx.quick
     from concurrent.futures import ThreadPoolExecutor
-    with ThreadPoolExecutor(max_workers=6) as ex:
+    with ThreadPoolExecutor(max_workers=7) as ex:
         # (M)+(R) two appenders x three samples, two readers, rollback: every transition emitted
         f_mc = ex.submit(ctx.tlc, "isolation", "Isolation", "MC_quick.cfg", workers=4, timeout=1500,
                          constants={"EmitMode": '"state"' if q else '"all"'})
@@ -39,11 +41,15 @@ def run(ctx):
                           timeout=(200 if q else 1500))
         # (M)+(R) three appenders x one series x two readers (cleanup bound taken from the oldest reader): one per state
         f_wm = ex.submit(ctx.tlc, "isolation", "Isolation", "MC_wm.cfg", workers=4, timeout=1500)
+        # (M)+(R) nine serial single-sample transactions on one series, two readers that stay open: the watermark cleanup
+        # walks the first slot of the 4-slot txRing round and a reader pins the watermark while the ring fills up, so the
+        # ring grows while wrapped with its first slot at 0, 1, 2 and 3 (code-shaped coverage dimension `grow`)
+        f_ser = ex.submit(ctx.tlc, "isolation", "Isolation", "MC_serial.cfg", workers=4, timeout=1500)
         futs = {}
         if not q:
             # (M)+(R) six samples in one series (three chunks, ring growth): one behaviour per distinct state
             futs["ring"] = ex.submit(ctx.tlc, "isolation", "Isolation", "MC_ring.cfg", workers=4, timeout=3000)
-        mc, h2, sim, wm = f_mc.result(), f_h2.result(), f_sim.result(), f_wm.result()
+        mc, h2, sim, wm, ser = f_mc.result(), f_h2.result(), f_sim.result(), f_wm.result(), f_ser.result()
         ring = futs["ring"].result() if futs else None
     if h2.violated != "Complete":
         raise vlib.Infra("MC_h2: expected the raw Complete invariant to fail in the model (KF-C05-1 shape), got %r" % h2.violated)
@@ -53,6 +59,13 @@ def run(ctx):
     ctx.account(wm)
     behs += wm.emitted
     ctx.log("MC_wm: %d generated / %d distinct, %d behaviours (%.0fs)" % (wm.generated, wm.distinct, len(wm.emitted), wm.wall))
+    ctx.account(ser)
+    behs += ser.emitted
+    grown = {st.get("grow") for b in ser.emitted for st in b["steps"] if st.get("a") == "CommitSample"}
+    if not {0, 1, 2, 3} <= grown:
+        raise vlib.Infra("MC_serial: ring growth with the first slot at 0..3 not all covered (got %s)" % sorted(grown))
+    ctx.log("MC_serial: %d generated / %d distinct, %d behaviours, ring grew with first slot at %s (%.0fs)"
+            % (ser.generated, ser.distinct, len(ser.emitted), sorted(g for g in grown if g is not None and g >= 0), ser.wall))
     if ring:
         ctx.account(ring)
         behs += ring.emitted
@@ -79,7 +92,7 @@ def run(ctx):
         "bounded model: <=4 appenders, <=3 series, <=3 readers, float samples, OOO disabled, one chunk range, SamplesPerChunk=1 (cut at 2 samples)",
         "Begin = Head.Appender + all Append calls atomically; reads of one series are atomic w.r.t. commit steps (appenders parked at gates)",
         "Complete/Atomic are checked as Prop \\/ KF_C05_1 (known finding: committed samples hidden behind a sample of a still-open appender in the same series)",
-        "ring contents, chunk partition and m-map counts are compared as drift only",
+        "ring contents (logical and physical: capacity, first slot), chunk partition and m-map counts are compared as drift only",
     ]
     return ctx.finish(rule="one behaviour per distinct state with an open reader (quick) / per transition (thorough) of MC_quick, per state of MC_wm "
                            "(and MC_ring in thorough), seeded walks of SIM; each replayed on "
